@@ -978,6 +978,7 @@ void strip_quote_markers_from_line(token * line, const char * source) {
 	}
 
 	token * t = NULL;
+	bool had_marker = false;
 
 	while (line->child && t != line->child) {
 		t = line->child;
@@ -991,9 +992,38 @@ void strip_quote_markers_from_line(token * line, const char * source) {
 				break;
 
 			case MARKER_BLOCKQUOTE:
+				had_marker = true;
+
 			case NON_INDENT_SPACE:
 				prune_first_child_from_line(line);
 				break;
+		}
+	}
+
+	if (had_marker && line->child && (line->child->type == INDENT_SPACE) && (source[line->child->start] == ' ')) {
+		// One space after the '>' belongs to the marker, but the lexer counted
+		// the indents from the '>' itself -- recount them from the next character
+		t = line->child;
+
+		while ((t->type == INDENT_SPACE) && t->next && (t->next->start == t->start + t->len) &&
+				(source[t->next->start] == ' ') &&
+				((t->next->type == INDENT_SPACE) || (t->next->type == NON_INDENT_SPACE) || (t->next->type == TEXT_PLAIN))) {
+			t = t->next;
+		}
+
+		if (t->type != INDENT_SPACE) {
+			// There are more spaces than whole indents: shift the indents right
+			// by one and take that character from the token that follows them
+			for (token * w = line->child; w != t; w = w->next) {
+				w->start++;
+			}
+
+			t->start++;
+			t->len--;
+
+			if (t->len == 0) {
+				tokens_prune(t, t);
+			}
 		}
 	}
 
